@@ -263,6 +263,7 @@ class Rec3(pg.Object):
   tags: pgt.List(pgt.Int(min_value=0, max_value=5), min_size=1, max_size=3) = [1]
   opt: pgt.Int().noneable() = None
   fz: pgt.Int().freeze(7) = 7
+  fzn: pgt.Int().noneable().freeze(7) = 7        # frozen although None would otherwise be acceptable
   e: pgt.Enum('a', ['a', 'b']) = 'a'
   sub: pgt.Object(Sub) = Sub()
   d: pgt.Dict([('k', pgt.Int(min_value=0)), (pgt.StrKey('y.*'), pgt.Int())]) = pg.Dict(k=0)
@@ -282,7 +283,7 @@ def _rec_ok(r, partial=False):
     return isinstance(z, int)          # bool is an int for pg.typing.Int, as in Python
   g = r.sym_getattr
   keys = list(r.sym_keys())
-  declared = ['x', 'name', 'tags', 'opt', 'fz', 'e', 'sub', 'd', 'u', 't', 'req']
+  declared = ['x', 'name', 'tags', 'opt', 'fz', 'fzn', 'e', 'sub', 'd', 'u', 't', 'req']
   if sorted(keys) != sorted(declared):
     return f'keys {keys}'
   if not (is_int(g('x')) and 0 <= g('x') <= 10):
@@ -296,6 +297,8 @@ def _rec_ok(r, partial=False):
     return 'opt'
   if g('fz') != 7:
     return 'fz'
+  if g('fzn') != 7:
+    return 'fzn'
   if g('e') not in ('a', 'b'):
     return 'e'
   sub = g('sub')
@@ -421,6 +424,30 @@ def h_obj(params, v0, v1, v2, v3, t, i, vk, w, w2):
   return None
 
 
+W_VALUES = [-1, 3, 7, 101]       # below every minimum / valid everywhere / above the tags element range / above every maximum
+USES_W = {'int', 'list', 'list_long', 'dict', 'dict_bad', 'sub', 'tuple', 'bool', 'float', 'rec', 'typed_list', 'typed_dict', 'partial_d'}
+
+
+def h_obj_n(params, v0, v1, v2, v3, t, i, vk, w, w2):
+  """h_obj with every selector a solver decision made concrete by branching (target node first, then - for applicable
+  (operation, node) pairs only - the key/index, the written value kind and a boundary value); the write and the schema
+  predicate then run natively."""
+  from engine.chx import concretize, untraced
+  op, single = params['op'], params.get('single', False)
+  with untraced():
+    nodes0 = T.nodes_of(t_rec((1, 1, 1, 1), single))
+  t = concretize(t, range(len(nodes0)))
+  if not T.applicable(op, nodes0[t], t):
+    raise Assume()
+  n = T.fanout(nodes0[t])
+  i = concretize(i, range(-n - 1, n + 2))
+  names = GROUPS[params['group']]
+  vk = concretize(vk, range(len(names)))
+  w = concretize(w, W_VALUES) if names[vk] in USES_W else 3
+  with untraced():
+    return h_obj(params, 1, 1, 1, 1, t, i, vk, w, 60)
+
+
 _LA = [('lo', 'optint'), ('hi', 'optint'), ('mn', 'optint'), ('mx', 'optint'), ('x0', 'int'), ('x1', 'int'), ('x2', 'int'),
        ('n', 'int'), ('i', 'int'), ('v', 'int'), ('w', 'int'), ('m', 'int')]
 _DA = [('lo', 'optint'), ('hi', 'optint'), ('dflt', 'int'), ('a0', 'int'), ('b0', 'int'), ('has_b', 'bool'), ('has_x', 'bool'),
@@ -442,8 +469,11 @@ def shards(tier, seed):
     out.append(dict(name=f'tdict:{op}', fn='h_tdict', params=dict(op=op), args=_DA, budget_s=b, per_path_s=15))
   for op in OBJ_OPS:
     for group in GROUPS:
-      out.append(dict(name=f'obj:{op}:{group}', fn='h_obj', params=dict(op=op, group=group, single=quick and op != 'rebind_deep2'), args=_OA,
-                      budget_s=25 if quick else 400, per_path_s=15))
+      out.append(dict(name=f'objn:{op}:{group}', fn='h_obj_n', params=dict(op=op, group=group, single=quick and op != 'rebind_deep2'),
+                      args=_OA, budget_s=90 if quick else 400, expect_s=20, per_path_s=15, allow_vacuous=True))
+      if not quick:      # leaf ints unbounded and traced (the typed list / typed dict shards do this in both tiers)
+        out.append(dict(name=f'obj:{op}:{group}', fn='h_obj', params=dict(op=op, group=group, single=False), args=_OA,
+                        budget_s=400, per_path_s=15))
   return out
 
 
